@@ -1183,7 +1183,7 @@ def gen_float_repr(rng, tier):
               "9007199254740993.000000000000000000001", "0.1", "0.2", "0.3", "1e23", "8.41e21", "2.2250738585072011e-308", "2.2250738585072014e-308", "5e-324", "3e-324", "2e-324"]:
         yield {"s": s}
         yield {"s": "-" + s}
-    for _ in range(3000 if quick else 120000):
+    for _ in range(3000 if quick else 600000):
         r = rng.random()
         if r < 0.5:
             x = struct.unpack("<d", struct.pack("<Q", rng.getrandbits(64)))[0]
@@ -1765,7 +1765,15 @@ def oracle_from_value(a):
         if code == "float" and not (abs(v) <= 3.4028235677973366e38):
             return f"from_value({v!r}) = float but the value is outside xs:float's range"
         return None
-    exp = {Decimal: "decimal", str: "string", QName: "QName", XmlHexBinary: "hexBinary", XmlBase64Binary: "base64Binary", XmlDate: "date", XmlTime: "time", XmlDateTime: "dateTime"}.get(type(v))
+    if isinstance(v, XmlPeriod):
+        # the datatype whose lexical space the text belongs to (XSD 1.1 Part 2 §3.3.9-3.3.14)
+        t = re.sub(r"(Z|[+-][0-9]{2}:[0-9]{2})\Z", "", str(v))
+        exp = ("gDay" if re.fullmatch(r"---[0-9]{2}", t) else "gMonthDay" if re.fullmatch(r"--[0-9]{2}-[0-9]{2}", t)
+               else "gMonth" if re.fullmatch(r"--[0-9]{2}(--)?", t) else "gYearMonth" if re.fullmatch(r"-?[0-9]{4,}-[0-9]{2}", t)
+               else "gYear" if re.fullmatch(r"-?[0-9]{4,}", t) else None)
+        return None if exp is None or code == exp else f"from_value({v!r}) = {code}, its lexical form is a {exp}"
+    exp = {Decimal: "decimal", str: "string", QName: "QName", XmlHexBinary: "hexBinary", XmlBase64Binary: "base64Binary", XmlDate: "date", XmlTime: "time", XmlDateTime: "dateTime",
+           XmlDuration: "duration"}.get(type(v))
     if exp and code != exp:
         return f"from_value({v!r}) = {code}, expected {exp}"
     return None
@@ -1797,6 +1805,8 @@ def oracle_test(a):
     except ConverterError:
         return "test() is True but deserialize fails" if res else None
     special = isinstance(v, float) and (math.isnan(v) or math.isinf(v))
+    if special and not res:
+        return f"test({s!r}, [float], strict) is False for an accepted spelling of a special value (documented: always True)"
     canon = converter.serialize(v)
     if res and not special and canon != s.strip():
         return f"test({s!r}, [{t.__name__}], strict) is True but serialize gives {canon!r}"
